@@ -1503,6 +1503,19 @@ func (ex *Exec) appendOp(st *State, cc *ssa.CallCommon, args []Val, pos string) 
 	ref := ex.freshRef(st)
 	st.heap[name] = p.Store(r, ref, newArr)
 	total := p.Add(n, m)
+	if bt, ok := el.Underlying().(*types.Basic); ok && bt.Kind() == types.Uint8 {
+		// byte strings: the abstract string of the result is the concatenation of the abstract strings of the parts
+		if sf := ex.P.CS.Specs["bytesOf"]; sf != nil {
+			if cf := ex.P.CS.Specs["catB"]; cf != nil {
+				xseq := ex.sliceSeq(st, xs, el)
+				whole := ex.specApp(sf, []*Term{newArr, total}, "")
+				left := ex.specApp(sf, []*Term{oldSeq, n}, "")
+				right := ex.specApp(sf, []*Term{xseq, m}, "")
+				ex.assume(st, p.Eq(whole, ex.specApp(cf, []*Term{left, right}, "")))
+				ex.assumptions["append on byte slices concatenates their abstract byte strings (true by the model of append)"] = true
+			}
+		}
+	}
 	capT := p.Fresh("cap", IntSort)
 	ex.assume(st, p.And(p.Ge(capT, total), p.Le(capT, p.Int(1<<40))))
 	ex.assumptions["append always reallocates (the old slice value must be dead after x = append(x, …))"] = true
